@@ -190,9 +190,14 @@ pub fn entry_counter(e: Entry) -> &'static str {
 
 pub fn stream_shrink_candidates(sc: &StreamSc) -> Vec<Scenario> {
     let mut out = vec![];
+    // every candidate is a copy of the scenario: for a long one only the coarse removals (chunks of at
+    // least 1/64 of it) are offered, the fine ones once it has become short — otherwise the list of a
+    // 50 000-item document would hold 10^5 copies of it
+    const FINE_BELOW: usize = 2000;
+    let coarse = |n: usize| -> Vec<(usize, usize)> { removal_ranges(n).into_iter().filter(|(a, b)| n <= FINE_BELOW || (b - a) * 64 >= n).collect() };
     match &sc.src {
         Src::Events(evs) => {
-            for (a, b) in removal_ranges(evs.len()) {
+            for (a, b) in coarse(evs.len()) {
                 let mut v = evs.clone(); v.drain(a..b);
                 out.push(StreamSc { src: Src::Events(v), ..sc.clone() });
             }
@@ -202,7 +207,7 @@ pub fn stream_shrink_candidates(sc: &StreamSc) -> Vec<Scenario> {
                 out.push(StreamSc { src: Src::Events(v), ..sc.clone() });
             }
             // simpler characters
-            for (i, e) in evs.iter().enumerate() {
+            for (i, e) in evs.iter().enumerate().take(if evs.len() <= FINE_BELOW { usize::MAX } else { 0 }) {
                 if let Ev::Item(c, l) = e {
                     for r in ['a', '0', ' '] {
                         if *c != r && !c.is_ascii_alphanumeric() || (c.is_ascii_alphabetic() && *c != 'a' && r == 'a') || (c.is_ascii_digit() && *c != '0' && r == '0') {
@@ -215,7 +220,7 @@ pub fn stream_shrink_candidates(sc: &StreamSc) -> Vec<Scenario> {
             }
         }
         Src::Bytes(b) => {
-            for (a, e) in removal_ranges(b.len()) {
+            for (a, e) in coarse(b.len()) {
                 let mut v = b.clone(); v.drain(a..e);
                 out.push(StreamSc { src: Src::Bytes(v), ..sc.clone() });
             }
